@@ -1,9 +1,579 @@
-//! C05: not built yet.
-use crate::out::Out;
-use serde_json::Value;
+//! C05: `MemRegion<T>` as a store of non-overlapping typed cells.
+//!
+//! The harness drives two real `MemRegion<T>` (T = `BitvectorDomain` "flat" or
+//! `DataDomain<BitvectorDomain>` "flagged") through operation histories and records, after every
+//! mutator, the full `iter()` contents of both regions, plus bursts of `get` / `get_unsized`.
+//! Histories come from the seeded random generator (sub "" - impl -> spec) or from TLC
+//! (sub "spec": operation records printed by spec/mc/MC_MemRegion_hist, file named by the
+//! environment variable VERIF_C05_HIST - spec -> impl).  Nothing is decided here: TLC validates
+//! the recording against spec/MemRegion.tla (spec/trace/T_C05.tla).
+//!
+//! Wire format (spec/MemRegionWire.tla): value = [size, abs, top01, rel_1, rel_2] (flat values
+//! have no rel entries), -2 = absent, -1 = Top(size) of the BitvectorDomain; cell = [offset] ++ value.
+use crate::enc::{bv_i64, bv_u64};
+use crate::out::{catch, Out};
+use crate::rng::Rng;
+use cwe_checker_lib::abstract_domain::{
+    AbstractDomain, AbstractIdentifier, BitvectorDomain, DataDomain, HasTop, MemRegion, SizedDomain, TryToBitvec,
+};
+use cwe_checker_lib::intermediate_representation::{ByteSize, Tid, Variable};
+use serde_json::{json, Map, Value};
+use std::collections::BTreeMap;
+use std::panic::AssertUnwindSafe;
 
-pub fn gen(_out: &mut Out, _sub: &str) {}
+type Data = DataDomain<BitvectorDomain>;
+const ABSENT: i64 = -2;
+const BVTOP: i64 = -1;
+const ADDR: u64 = 8; // address bytesize of the regions
 
-pub fn replay(_run: &[Value], _sub: &str) -> Vec<Value> {
-    Vec::new()
+// ------------------------------------------------------------------------------------------
+// projection of the two value domains to / from the wire (mechanical; public API only)
+// ------------------------------------------------------------------------------------------
+pub trait Val: AbstractDomain + SizedDomain + HasTop + std::fmt::Debug + Clone {
+    fn from_wire(w: &[i64]) -> Self;
+    fn to_wire(&self) -> Vec<i64>;
+}
+
+fn bvd(x: i64, size: u64) -> BitvectorDomain {
+    if x == BVTOP {
+        BitvectorDomain::Top(ByteSize::new(size))
+    } else {
+        BitvectorDomain::Value(bv_u64(x as u64, size))
+    }
+}
+fn bvd_wire(d: &BitvectorDomain) -> i64 {
+    match d {
+        BitvectorDomain::Top(_) => BVTOP,
+        v => v.try_to_bitvec().unwrap().try_to_u64().unwrap() as i64,
+    }
+}
+fn ident(i: usize) -> AbstractIdentifier {
+    let var = Variable { name: format!("id{}", i + 1), size: ByteSize::new(8), is_temp: false };
+    AbstractIdentifier::from_var(Tid::new("c05"), &var)
+}
+
+impl Val for BitvectorDomain {
+    fn from_wire(w: &[i64]) -> Self {
+        bvd(w[1], w[0] as u64)
+    }
+    fn to_wire(&self) -> Vec<i64> {
+        vec![u64::from(self.bytesize()) as i64, bvd_wire(self), 0]
+    }
+}
+
+impl Val for Data {
+    fn from_wire(w: &[i64]) -> Self {
+        let size = w[0] as u64;
+        let mut d = Data::new_empty(ByteSize::new(size));
+        if w[1] != ABSENT {
+            d.set_absolute_value(Some(bvd(w[1], size)));
+        }
+        let mut rel = BTreeMap::new();
+        for (i, x) in w[3..].iter().enumerate() {
+            if *x != ABSENT {
+                rel.insert(ident(i), bvd(*x, size));
+            }
+        }
+        d.set_relative_values(rel);
+        if w[2] == 1 {
+            d.set_contains_top_flag();
+        }
+        d
+    }
+    fn to_wire(&self) -> Vec<i64> {
+        let mut w = vec![
+            u64::from(self.bytesize()) as i64,
+            self.get_absolute_value().map(bvd_wire).unwrap_or(ABSENT),
+            self.contains_top() as i64,
+        ];
+        let ids = [ident(0), ident(1)];
+        for id in ids.iter() {
+            w.push(self.get_relative_values().get(id).map(bvd_wire).unwrap_or(ABSENT));
+        }
+        // an identifier the harness never created cannot be projected: make it visible
+        assert!(self.get_relative_values().keys().all(|k| ids.contains(k)));
+        w
+    }
+}
+
+fn wire(v: &Value) -> Vec<i64> {
+    v.as_array().unwrap().iter().map(|x| x.as_i64().unwrap()).collect()
+}
+fn ridx(v: &Value) -> usize {
+    if v.as_str().unwrap() == "A" {
+        0
+    } else {
+        1
+    }
+}
+fn rname(i: usize) -> &'static str {
+    ["A", "B"][i]
+}
+
+// ------------------------------------------------------------------------------------------
+// the two real regions and the execution of one operation record
+// ------------------------------------------------------------------------------------------
+pub struct Machine<T: Val> {
+    regs: [MemRegion<T>; 2],
+}
+
+impl<T: Val> Machine<T> {
+    fn new() -> Self {
+        Machine { regs: [MemRegion::new(ByteSize::new(ADDR)), MemRegion::new(ByteSize::new(ADDR))] }
+    }
+    /// contents of region i as `iter()` yields them
+    fn cells(&self, i: usize) -> Vec<Vec<i64>> {
+        self.regs[i]
+            .iter()
+            .map(|(o, v)| {
+                let mut c = vec![*o];
+                c.extend(v.to_wire());
+                c
+            })
+            .collect()
+    }
+    fn state(&self) -> Value {
+        json!([self.cells(0), self.cells(1)])
+    }
+
+    fn mutate(&mut self, op: &Value) {
+        let ev = op["ev"].as_str().unwrap();
+        match ev {
+            "add" => {
+                let r = ridx(&op["r"]);
+                let v = T::from_wire(&wire(&op["val"]));
+                let off = op["off"].as_i64().unwrap();
+                if op["via"].as_str() == Some("index") {
+                    self.regs[r].insert_at_byte_index(v, off);
+                } else {
+                    self.regs[r].add(v, bv_i64(off, ADDR));
+                }
+            }
+            "remove" => {
+                let r = ridx(&op["r"]);
+                self.regs[r].remove(bv_i64(op["off"].as_i64().unwrap(), ADDR), bv_i64(op["n"].as_i64().unwrap(), ADDR));
+            }
+            "wtop" => {
+                let r = ridx(&op["r"]);
+                self.regs[r].merge_write_top(bv_i64(op["off"].as_i64().unwrap(), ADDR), ByteSize::new(op["s"].as_u64().unwrap()));
+            }
+            "mtop" => {
+                let r = ridx(&op["r"]);
+                self.regs[r].mark_interval_values_as_top(
+                    op["a"].as_i64().unwrap(),
+                    op["b"].as_i64().unwrap(),
+                    ByteSize::new(op["s"].as_u64().unwrap()),
+                );
+            }
+            "alltop" => self.regs[ridx(&op["r"])].mark_all_values_as_top(),
+            "shift" => self.regs[ridx(&op["r"])].add_offset_to_all_indices(op["k"].as_i64().unwrap()),
+            "merge" => {
+                let (d, s) = (ridx(&op["dst"]), ridx(&op["src"]));
+                let m = self.regs[d].merge(&self.regs[s]);
+                self.regs[d] = m;
+            }
+            "copy" => {
+                let (d, s) = (ridx(&op["dst"]), ridx(&op["src"]));
+                self.regs[d] = self.regs[s].clone();
+            }
+            "newtop" => {
+                let r = ridx(&op["r"]);
+                self.regs[r] = self.regs[r].top();
+            }
+            "setvals" => {
+                let r = ridx(&op["r"]);
+                let offs = wire(&op["offs"]);
+                let w = wire(&op["val"]);
+                let keys: Vec<i64> = self.regs[r].iter().map(|(k, _)| *k).collect();
+                for (k, v) in keys.iter().zip(self.regs[r].values_mut()) {
+                    if offs.contains(k) {
+                        let mut w2 = w.clone();
+                        w2[0] = u64::from(v.bytesize()) as i64; // same content at the size of the cell
+                        *v = T::from_wire(&w2);
+                    }
+                }
+                self.regs[r].clear_top_values();
+            }
+            "cleartop" => self.regs[ridx(&op["r"])].clear_top_values(),
+            other => panic!("harness: unknown op {}", other),
+        }
+    }
+
+    fn gets(&self, op: &Value) -> Map<String, Value> {
+        let r = ridx(&op["r"]);
+        let reg = &self.regs[r];
+        let offs = wire(&op["offs"]);
+        let sizes = wire(&op["sizes"]);
+        let mut res = Vec::new();
+        let mut unsized_ = Vec::new();
+        for o in offs.iter() {
+            let row: Vec<Vec<i64>> = sizes.iter().map(|s| reg.get(bv_i64(*o, ADDR), ByteSize::new(*s as u64)).to_wire()).collect();
+            res.push(row);
+            let u: Vec<Vec<i64>> = reg.get_unsized(bv_i64(*o, ADDR)).iter().map(|v| v.to_wire()).collect();
+            unsized_.push(u);
+        }
+        let emap: Vec<Vec<i64>> = reg
+            .entry_map()
+            .iter()
+            .map(|(o, v)| {
+                let mut c = vec![*o];
+                c.extend(v.to_wire());
+                c
+            })
+            .collect();
+        let mut m = Map::new();
+        m.insert("res".into(), json!(res));
+        m.insert("unsized".into(), json!(unsized_));
+        m.insert("is_top".into(), json!(reg.is_top()));
+        m.insert("emap".into(), json!(emap));
+        m.insert("n_values".into(), json!(reg.values().len()));
+        m
+    }
+
+    /// Execute one operation record on the real regions; returns the event (inputs + outputs).
+    fn exec(&mut self, op: &Value) -> Value {
+        let mut ev = Map::new();
+        let inputs: &[&str] = match op["ev"].as_str().unwrap() {
+            "add" => &["ev", "r", "off", "val", "via"],
+            "remove" => &["ev", "r", "off", "n"],
+            "wtop" => &["ev", "r", "off", "s"],
+            "mtop" => &["ev", "r", "a", "b", "s"],
+            "alltop" | "newtop" | "cleartop" => &["ev", "r"],
+            "shift" => &["ev", "r", "k"],
+            "merge" | "copy" => &["ev", "dst", "src"],
+            "setvals" => &["ev", "r", "offs", "val"],
+            "gets" => &["ev", "r", "offs", "sizes"],
+            other => panic!("harness: unknown op {}", other),
+        };
+        for k in inputs {
+            ev.insert(k.to_string(), if op[*k].is_null() && *k == "via" { json!("add") } else { op[*k].clone() });
+        }
+        if op["ev"] == "gets" {
+            match catch(AssertUnwindSafe(|| self.gets(op))) {
+                Ok(m) => {
+                    ev.extend(m);
+                    ev.insert("panic".into(), json!(""));
+                }
+                Err(p) => {
+                    ev.insert("res".into(), json!([]));
+                    ev.insert("unsized".into(), json!([]));
+                    ev.insert("is_top".into(), json!(false));
+                    ev.insert("emap".into(), json!([]));
+                    ev.insert("n_values".into(), json!(-1));
+                    ev.insert("panic".into(), json!(p));
+                }
+            }
+        } else {
+            let p = catch(AssertUnwindSafe(|| self.mutate(op))).err().unwrap_or_default();
+            ev.insert("state".into(), self.state());
+            ev.insert("panic".into(), json!(p));
+        }
+        Value::Object(ev)
+    }
+}
+
+pub enum AnyMachine {
+    Flat(Machine<BitvectorDomain>),
+    Flagged(Machine<Data>),
+}
+
+impl AnyMachine {
+    fn new(dom: &str) -> AnyMachine {
+        if dom == "flagged" {
+            AnyMachine::Flagged(Machine::new())
+        } else {
+            AnyMachine::Flat(Machine::new())
+        }
+    }
+    fn exec(&mut self, op: &Value) -> Value {
+        match self {
+            AnyMachine::Flat(m) => m.exec(op),
+            AnyMachine::Flagged(m) => m.exec(op),
+        }
+    }
+    fn cells(&self, i: usize) -> Vec<Vec<i64>> {
+        match self {
+            AnyMachine::Flat(m) => m.cells(i),
+            AnyMachine::Flagged(m) => m.cells(i),
+        }
+    }
+}
+
+fn reset_event(dom: &str, src: &str, case: u64) -> Value {
+    json!({"ev": "reset", "dom": dom, "src": src, "case": case, "addr": ADDR})
+}
+
+/// observer burst on region r: stored offsets and their neighbours (at most 10, rotating with
+/// `salt`) plus `extra`; two of the four sizes (rotating), so that both matching and
+/// non-matching sizes are read
+fn gets_op(m: &AnyMachine, r: usize, extra: &[i64], salt: u64) -> Value {
+    let mut cand: Vec<i64> = Vec::new();
+    for c in m.cells(r).iter() {
+        for d in [0, -1, 1] {
+            cand.push(c[0] + d);
+        }
+        cand.push(c[0] + c[1] - 1);
+    }
+    let mut offs: Vec<i64> = Vec::new();
+    if !cand.is_empty() {
+        let start = ((salt % 1009) as usize * 7) % cand.len();
+        for i in 0..cand.len().min(10) {
+            offs.push(cand[(start + i) % cand.len()]);
+        }
+    }
+    offs.extend_from_slice(extra);
+    offs.sort();
+    offs.dedup();
+    let sizes = [[1, 2], [4, 8], [2, 4], [1, 8], [1, 4], [2, 8]][(salt % 6) as usize];
+    json!({"ev": "gets", "r": rname(r), "offs": offs, "sizes": sizes})
+}
+
+// ------------------------------------------------------------------------------------------
+// random histories (impl -> spec)
+// ------------------------------------------------------------------------------------------
+struct Gen {
+    rng: Rng,
+    flagged: bool,
+    lo: i64,
+    hi: i64,
+}
+
+const SIZES: [i64; 8] = [1, 1, 2, 2, 4, 4, 8, 8];
+
+impl Gen {
+    fn val(&mut self, s: i64) -> Vec<i64> {
+        if !self.flagged {
+            let abs = if self.rng.chance(1, 7) { BVTOP } else { self.rng.range(0, 3) };
+            vec![s, abs, 0]
+        } else if self.rng.chance(1, 8) {
+            vec![s, ABSENT, 1, ABSENT, ABSENT] // Top
+        } else {
+            let abs = match self.rng.below(10) {
+                0 | 1 => ABSENT,
+                2 => BVTOP,
+                _ => self.rng.range(0, 2),
+            };
+            let rel = |g: &mut Rng| match g.below(12) {
+                0 | 1 => g.range(0, 1),
+                2 => BVTOP,
+                _ => ABSENT,
+            };
+            let r1 = rel(&mut self.rng);
+            let r2 = rel(&mut self.rng);
+            vec![s, abs, self.rng.chance(1, 4) as i64, r1, r2]
+        }
+    }
+    /// an offset: near an existing cell of either region (all the overlap / adjacency positions
+    /// for a cell of size s), a window edge, or uniform in the window
+    fn off(&mut self, m: &AnyMachine, s: i64) -> i64 {
+        let mut cells = m.cells(0);
+        cells.extend(m.cells(1));
+        let k = self.rng.below(100);
+        if k < 45 && !cells.is_empty() {
+            let c = self.rng.pick(&cells).clone();
+            let (o, cs) = (c[0], c[1]);
+            let cands = [o, o + 1, o - 1, o + cs, o + cs - 1, o - s, o - s + 1, o + cs / 2, o - s - 1, o + cs + 1];
+            *self.rng.pick(&cands)
+        } else if k < 55 {
+            *self.rng.pick(&[self.lo, self.hi, self.lo - 1, self.hi + 1, self.hi - s + 1, -1, 0])
+        } else {
+            self.rng.range(self.lo, self.hi)
+        }
+    }
+    fn region(&mut self) -> usize {
+        self.rng.below(2) as usize
+    }
+
+    fn op(&mut self, m: &AnyMachine) -> Value {
+        let r = self.region();
+        let k = self.rng.below(100);
+        if k < 38 {
+            let mut s = *self.rng.pick(&SIZES);
+            let mut off = self.off(m, s);
+            let mut val = self.val(s);
+            // frequently mirror a cell of the other region (same offset and size), so that merges
+            // meet the "both hold it" case with equal and with different values
+            let other = m.cells(1 - r);
+            if self.rng.chance(3, 10) && !other.is_empty() {
+                let c = self.rng.pick(&other).clone();
+                off = c[0];
+                s = c[1];
+                val = if self.rng.chance(1, 2) { c[1..].to_vec() } else { self.val(s) };
+                if self.rng.chance(1, 6) {
+                    s = *self.rng.pick(&SIZES); // same offset, other size
+                    val = self.val(s);
+                }
+            }
+            let via = if self.rng.chance(1, 4) { "index" } else { "add" };
+            json!({"ev": "add", "r": rname(r), "off": off, "val": val, "via": via})
+        } else if k < 46 {
+            let n = *self.rng.pick(&[1, 1, 2, 3, 4, 8, 16]);
+            json!({"ev": "remove", "r": rname(r), "off": self.off(m, n), "n": n})
+        } else if k < 57 {
+            let mine = m.cells(r);
+            if self.rng.chance(1, 2) && !mine.is_empty() {
+                let c = self.rng.pick(&mine).clone();
+                let s = if self.rng.chance(4, 5) { c[1] } else { *self.rng.pick(&SIZES) };
+                json!({"ev": "wtop", "r": rname(r), "off": c[0], "s": s})
+            } else {
+                let s = *self.rng.pick(&SIZES);
+                json!({"ev": "wtop", "r": rname(r), "off": self.off(m, s), "s": s})
+            }
+        } else if k < 65 {
+            let s = *self.rng.pick(&SIZES);
+            let a = self.off(m, s);
+            let b = a + *self.rng.pick(&[0, 0, 1, 2, 3, 5, 12]);
+            json!({"ev": "mtop", "r": rname(r), "a": a, "b": b, "s": s})
+        } else if k < 67 {
+            json!({"ev": "alltop", "r": rname(r)})
+        } else if k < 74 {
+            let cells = m.cells(r);
+            let mut kk: i64 = *self.rng.pick(&[-8i64, -3, -2, -1, 0, 1, 2, 3, 8]);
+            if let (Some(f), Some(l)) = (cells.first(), cells.last()) {
+                // keep the cells near the window
+                if f[0] < self.lo - 16 {
+                    kk = kk.abs();
+                }
+                if l[0] > self.hi + 16 {
+                    kk = -kk.abs();
+                }
+            }
+            json!({"ev": "shift", "r": rname(r), "k": kk})
+        } else if k < 85 {
+            let src = if self.rng.chance(1, 10) { r } else { 1 - r };
+            json!({"ev": "merge", "dst": rname(r), "src": rname(src)})
+        } else if k < 89 {
+            json!({"ev": "copy", "dst": rname(r), "src": rname(1 - r)})
+        } else if k < 90 {
+            json!({"ev": "newtop", "r": rname(r)})
+        } else if k < 97 {
+            let mine = m.cells(r);
+            let mut offs: Vec<i64> = Vec::new();
+            for c in mine.iter() {
+                if self.rng.chance(1, 3) {
+                    offs.push(c[0]);
+                }
+            }
+            if self.rng.chance(1, 4) {
+                offs.push(self.rng.range(self.lo, self.hi)); // possibly not a stored offset
+            }
+            let v = if self.rng.chance(2, 5) {
+                if self.flagged { vec![1, ABSENT, 1, ABSENT, ABSENT] } else { vec![1, BVTOP, 0] }
+            } else {
+                self.val(1)
+            };
+            json!({"ev": "setvals", "r": rname(r), "offs": offs, "val": v})
+        } else {
+            json!({"ev": "cleartop", "r": rname(r)})
+        }
+    }
+}
+
+/// feature tag (counted only): some operation evicted a cell at an offset different from its own
+/// argument offset (partial overlap), or a merge of two different non-empty regions kept a cell
+fn interesting(before: &[Vec<Vec<i64>>; 2], after: &[Vec<Vec<i64>>; 2], op: &Value) -> bool {
+    let ev = op["ev"].as_str().unwrap();
+    if ev == "merge" {
+        let d = ridx(&op["dst"]);
+        return !before[0].is_empty() && !before[1].is_empty() && before[0] != before[1] && !after[d].is_empty();
+    }
+    if !["add", "remove", "wtop", "mtop"].contains(&ev) {
+        return false;
+    }
+    let r = ridx(&op["r"]);
+    let own = op["off"].as_i64().or(op["a"].as_i64()).unwrap();
+    before[r].iter().any(|c| c[0] != own && !after[r].iter().any(|d| d[0] == c[0]))
+}
+
+fn random_case(rng: &mut Rng, case: u64, n_ops: u64) -> (Vec<Value>, bool) {
+    let flagged = rng.chance(1, 2);
+    let lo = *rng.pick(&[-8i64, -3, 0, -20]);
+    let span = *rng.pick(&[6i64, 10, 16, 24]);
+    let mut g = Gen { rng: rng.fork(), flagged, lo, hi: lo + span };
+    let dom = if flagged { "flagged" } else { "flat" };
+    let mut m = AnyMachine::new(dom);
+    let mut evs = vec![reset_event(dom, "rand", case)];
+    let mut nontrivial = false;
+    for _ in 0..n_ops {
+        let op = g.op(&m);
+        let before = [m.cells(0), m.cells(1)];
+        evs.push(m.exec(&op));
+        let after = [m.cells(0), m.cells(1)];
+        nontrivial |= interesting(&before, &after, &op);
+        if g.rng.chance(1, 3) {
+            let r = if op["ev"] == "merge" || op["ev"] == "copy" { ridx(&op["dst"]) } else { ridx(&op["r"]) };
+            let extra = [g.rng.range(lo - 2, lo + span + 2), *g.rng.pick(&[lo, lo + span])];
+            let q = gets_op(&m, r, &extra, g.rng.next());
+            evs.push(m.exec(&q));
+        }
+    }
+    for r in 0..2 {
+        let q = gets_op(&m, r, &[lo, lo + span], g.rng.next());
+        evs.push(m.exec(&q));
+    }
+    (evs, nontrivial)
+}
+
+/// Re-execute the operations of a list of recorded events / operation records (outputs ignored).
+fn run_ops(dom: &str, src: &str, case: u64, ops: &[Value], final_gets: bool) -> (Vec<Value>, bool) {
+    let mut m = AnyMachine::new(dom);
+    let mut evs = vec![reset_event(dom, src, case)];
+    let mut nontrivial = false;
+    for op in ops {
+        let before = [m.cells(0), m.cells(1)];
+        evs.push(m.exec(op));
+        let after = [m.cells(0), m.cells(1)];
+        nontrivial |= op["ev"] != "gets" && interesting(&before, &after, op);
+    }
+    if final_gets {
+        for r in 0..2 {
+            let q = gets_op(&m, r, &[-1, 0], case + ops.len() as u64 + r as u64);
+            evs.push(m.exec(&q));
+        }
+    }
+    (evs, nontrivial)
+}
+
+pub fn gen(out: &mut Out, sub: &str) {
+    if sub == "spec" {
+        // histories produced by TLC (MC_MemRegion_hist): one JSON object {"dom", "ops"} per line
+        let path = std::env::var("VERIF_C05_HIST").expect("VERIF_C05_HIST");
+        let text = std::fs::read_to_string(&path).expect("history file");
+        let mut total_ops = 0u64;
+        for (i, line) in text.lines().enumerate() {
+            let h: Value = serde_json::from_str(line).expect("history line");
+            let ops = h["ops"].as_array().unwrap();
+            total_ops += ops.len() as u64;
+            let (evs, nt) = run_ops(h["dom"].as_str().unwrap(), "spec", i as u64, ops, true);
+            out.emit(evs, nt);
+        }
+        out.extra.insert("spec_histories".into(), json!(text.lines().count()));
+        out.extra.insert("spec_history_ops".into(), json!(total_ops));
+        return;
+    }
+    let mut rng = Rng::new(out.seed ^ 0xC05);
+    let cases = out.size(300, 6000);
+    let mut kinds: BTreeMap<String, u64> = BTreeMap::new();
+    for case in 0..cases {
+        let n_ops = *rng.pick(&[20u64, 60, 60, 100]);
+        let (evs, nt) = random_case(&mut rng, case, n_ops);
+        for e in evs.iter() {
+            *kinds.entry(e["ev"].as_str().unwrap().to_string()).or_insert(0) += 1;
+        }
+        out.emit(evs, nt);
+    }
+    out.extra.insert("events_by_kind".into(), json!(kinds));
+}
+
+pub fn replay(run: &[Value], _sub: &str) -> Vec<Value> {
+    let (dom, src, case, ops) = match run.first() {
+        Some(e) if e["ev"] == "reset" => (
+            e["dom"].as_str().unwrap_or("flat").to_string(),
+            e["src"].as_str().unwrap_or("replay").to_string(),
+            e["case"].as_u64().unwrap_or(0),
+            &run[1..],
+        ),
+        _ => ("flat".to_string(), "replay".to_string(), 0, run),
+    };
+    run_ops(&dom, &src, case, ops, false).0
 }
